@@ -111,7 +111,7 @@ func roRequest(c roCase, root, h string) []byte {
 }
 
 // roRun performs one case on a server; returns the reply.
-func roRun(t testing.TB, tr *tracer, c roCase, root string, readOnly bool) (wframe, bool) {
+func roRun(t testing.TB, tr *tracer, c roCase, root string, readOnly bool, afterDenied bool) (wframe, bool) {
 	s := newSrvSession(t, tr, srvOpts{kind: "server", readOnly: readOnly, quiet: true})
 	s.start()
 	defer func() {
@@ -138,6 +138,12 @@ func roRun(t testing.TB, tr *tracer, c roCase, root string, readOnly bool) (wfra
 		}
 		h = f.Handle
 	}
+	if afterDenied {
+		// a modifying request is refused first: the classification of one request must not leak into the next
+		if d, ok := s.call(fMkdir(45, filepath.Join(root, "denied-probe"))); !ok || d.Typ != tStatus || d.Code != 3 {
+			return d, false
+		}
+	}
 	return s.call(roRequest(c, root, h))
 }
 
@@ -151,14 +157,24 @@ func TestVerif_ReadOnly(t *testing.T) {
 		tr.reset(kv{"kind": "readonly", "typ": c.Typ, "pflags": c.Pflags, "target": c.Target, "aflags": c.Aflags, "via": c.Via})
 		root := roTree(t, "ro")
 		before := treeDigest(root)
-		f, ok := roRun(t, tr, c, root, true)
+		f, ok := roRun(t, tr, c, root, true, false)
 		same := treeDigest(root) == before
 		wtyp, wcode := "", 0
 		if !c.Mutating {
 			// the same request on a writable server and an identical tree: reading requests must keep working
 			wroot := roTree(t, "ro") // same path: replies that contain paths are comparable
-			wf, _ := roRun(t, tr, c, wroot, false)
+			wf, _ := roRun(t, tr, c, wroot, false, false)
 			wtyp, wcode = wf.T(), int(wf.Code)
+			// ... and right after a refused modifying request as well
+			root2 := roTree(t, "ro")
+			before2 := treeDigest(root2)
+			f2, ok2 := roRun(t, tr, c, root2, true, true)
+			rt2 := f2.T()
+			if !ok2 {
+				rt2 = "NOREPLY"
+			}
+			tr.emit("ROCase", kv{"typ": c.Typ, "pflags": c.Pflags, "target": c.Target, "aflags": c.Aflags, "via": c.Via, "after": "denied",
+				"same": treeDigest(root2) == before2, "rtyp": rt2, "code": int(f2.Code), "wtyp": wtyp, "wcode": wcode})
 		}
 		rtyp := f.T()
 		if !ok {
